@@ -262,6 +262,11 @@ func lookupFor(t *rapid.T, opts map[string]string, redirect bool) func(*http.Req
 	if redirect {
 		dst = "https://elsewhere.example/$path"
 		o["redirect"] = "301"
+	} else if rapid.IntRange(0, 4).Draw(t, "unusable-redirect-option-next-to-the-rule") == 0 {
+		// a redirect option fabio cannot use (no 3xx code, the tag form with ",<url>"): the route is
+		// an ordinary one - with its gate
+		o["redirect"] = rapid.SampledFrom([]string{"abc", "200", "999", "301,https://elsewhere.example/", "", "30x"}).Draw(t, "unusable-redirect")
+		hx.Class("rule-next-to-an-unusable-redirect-option")
 	}
 	defs := []route.RouteDef{{Cmd: route.RouteAddCmd, Service: "svc", Src: "/", Dst: dst, Opts: o}}
 	tbl, err := route.NewTableCustom(&defs)
@@ -604,6 +609,10 @@ func TestC12Auth(t *testing.T) {
 		// optionally combine with an access rule that admits the peer
 		if rapid.Bool().Draw(t, "withallow") {
 			opts["allow"] = "ip:10.0.0.0/8"
+		}
+		if rapid.IntRange(0, 4).Draw(t, "unusable-redirect-option-next-to-auth") == 0 {
+			opts["redirect"] = rapid.SampledFrom([]string{"abc", "200", "301,https://elsewhere.example/", "999"}).Draw(t, "unusable-redirect")
+			hx.Class("auth-next-to-an-unusable-redirect-option")
 		}
 		tg := targetFor(t, opts, false)
 		rt := &countingRT{}
